@@ -411,8 +411,21 @@ def pipeline_program(params):
 
         s.log("cfg", recursive=bool(recursive), full=bool(full), ty="bytes" if isinstance(root, bytes) else "str", spell=spell, paced=bool(params.get("paced", True)),
               filter=sorted(filt) if filt is not None else [], contract=bool(params.get("contract", False)))
-        polling = params.get("observer") == "polling"
-        if polling:
+        polling = params.get("observer") in ("polling", "pollingvfs")
+        if params.get("observer") == "pollingvfs":
+            # every stat / listdir of the snapshot walk is a yield point: the tree may change under the walker
+            def ystat(path):
+                if not s.aborting:
+                    s.yield_("pstat")
+                return os.stat(path)
+
+            def ylist(path):
+                if not s.aborting:
+                    s.yield_("plist")
+                return os.scandir(path)
+
+            obs = w.mod("observers.polling").PollingObserverVFS(stat=ystat, listdir=ylist, polling_interval=1)
+        elif polling:
             obs = w.mod("observers.polling").PollingObserver(timeout=1.0)
         else:
             obs = inotify.InotifyObserver(generate_full_events=full)
@@ -466,7 +479,9 @@ def pipeline_program(params):
 
         def drive():
             for op in ops:
-                if op[0] == "drain":
+                if op[0] == "poll":      # let a poll start and carry on without waiting for it
+                    s.fire_manual_timers()
+                elif op[0] == "drain":
                     drain()
                     s.log("quiescent", tree=drv.listing(), phase="drain")
                 elif op[0] == "probe":
@@ -519,7 +534,7 @@ def pipeline_program(params):
         r.update(extra)
         return r
 
-    if params.get("observer") == "polling":
+    if params.get("observer") in ("polling", "pollingvfs"):
         # the poll timer (stopped_event.wait(timeout)) only fires when the driver asks for a poll
         wrapped.sched_kw = {"manual_timer": lambda task, label: label == "evwait"}
     return wrapped
